@@ -32,6 +32,7 @@ func runC14(c *core.Ctx, r *core.Reporter) {
 	c.BuildSSA()
 	c14count(c, r)
 	c14edge(c, r)
+	c14nillist(c, r)
 	c.BuildSSA()
 	c14kw(c, r)
 	c14sibling(c, r)
